@@ -13,6 +13,7 @@ import (
 	"fmt"
 	"go/ast"
 	"go/token"
+	"strings"
 )
 
 // pwFor resolves a selector to a three-clause for statement.
@@ -194,5 +195,301 @@ func init() {
 			pwForInit(mod, pkg, fn, "for[1]", p+"SpawnInit"),
 			pwForPost(mod, pkg, fn, "for[1]", p+"SpawnPost", "j"),
 		)
+	}
+}
+
+// ---------------------------------------------------------------------------------------------
+// the wrappers Map / MapContext
+
+// pwWrap is what the extractor finds in a wrapper body.
+type pwWrap struct {
+	fd      *ast.FuncDecl
+	call    *ast.CallExpr  // the call that takes the callback
+	lit     *ast.FuncLit   // the callback
+	litArg  int            // its position among the call's arguments
+	cbNames []string       // the callback's parameter names, one per parameter
+	write   *ast.IndexExpr // out[...] in the callback
+	read    *ast.IndexExpr // in[...] in the callback
+	fcall   *ast.CallExpr  // f(...) in the callback
+}
+
+func pwParamNames(fl *ast.FieldList) ([]string, []string) {
+	var names, types []string
+	if fl == nil {
+		return nil, nil
+	}
+	for _, f := range fl.List {
+		ty := ""
+		switch t := f.Type.(type) {
+		case *ast.Ident:
+			ty = t.Name
+		case *ast.SelectorExpr:
+			if x, ok := t.X.(*ast.Ident); ok {
+				ty = x.Name + "." + t.Sel.Name
+			}
+		}
+		if len(f.Names) == 0 {
+			names = append(names, "_")
+			types = append(types, ty)
+		}
+		for _, n := range f.Names {
+			names = append(names, n.Name)
+			types = append(types, ty)
+		}
+	}
+	return names, types
+}
+
+// pwAnalyse finds the one call with a function-literal argument in the wrapper's body and, inside the
+// literal, the one `out[…]`, the one `in[…]` and the one call of `f`.
+func pwAnalyse(c *Ctx, s *Site) (*pwWrap, error) {
+	fd, err := c.FindFunc(s.Pkg, s.Func)
+	if err != nil {
+		return nil, err
+	}
+	w := &pwWrap{fd: fd}
+	n := 0
+	ast.Inspect(fd.Body, func(x ast.Node) bool {
+		if ce, ok := x.(*ast.CallExpr); ok {
+			for i, a := range ce.Args {
+				if fl, ok := a.(*ast.FuncLit); ok {
+					n++
+					w.call, w.lit, w.litArg = ce, fl, i
+				}
+			}
+		}
+		if _, ok := x.(*ast.FuncLit); ok {
+			return false
+		}
+		return true
+	})
+	if n != 1 {
+		return nil, fmt.Errorf("%s: %d calls with a function literal argument, wanted 1", s.Func, n)
+	}
+	w.cbNames, _ = pwParamNames(w.lit.Type.Params)
+	nw, nr, nf := 0, 0, 0
+	ast.Inspect(w.lit.Body, func(x ast.Node) bool {
+		switch e := x.(type) {
+		case *ast.IndexExpr:
+			switch c.Text(e.X) {
+			case "out":
+				nw++
+				w.write = e
+			case "in":
+				nr++
+				w.read = e
+			}
+		case *ast.CallExpr:
+			if c.Text(e.Fun) == "f" {
+				nf++
+				w.fcall = e
+			}
+		}
+		return true
+	})
+	if nw != 1 || nr != 1 || nf != 1 {
+		return nil, fmt.Errorf("%s: callback has %d `out[…]`, %d `in[…]`, %d calls of f; wanted one each", s.Func, nw, nr, nf)
+	}
+	return w, nil
+}
+
+func pwStrings(l []string) string {
+	q := make([]string, len(l))
+	for i, x := range l {
+		q[i] = leanString(x)
+	}
+	return "[" + strings.Join(q, ", ") + "]"
+}
+
+// pwCtxParam returns the name of the enclosing function's parameter of type context.Context ("" if none).
+func pwCtxParam(fd *ast.FuncDecl) string {
+	names, types := pwParamNames(fd.Type.Params)
+	for i, t := range types {
+		if t == "context.Context" {
+			return names[i]
+		}
+	}
+	return ""
+}
+
+func pwCustom(mod, pkg, fn, name string, f func(c *Ctx, s *Site, w *pwWrap) (string, error)) Site {
+	return Site{Module: mod, Pkg: pkg, Func: fn, Name: name, Kind: Custom,
+		Custom: func(c *Ctx, s *Site) (string, error) {
+			w, err := pwAnalyse(c, s)
+			if err != nil {
+				return "", err
+			}
+			return f(c, s, w)
+		}}
+}
+
+// pwIdx emits an index expression of the callback as a function of the callback's own index parameter
+// (its last parameter): `def name (i : Int) : Int := …`. An identifier other than that parameter does
+// not translate (broken tie).
+func pwIdx(mod, pkg, fn, name string, write bool) Site {
+	return pwCustom(mod, pkg, fn, name, func(c *Ctx, s *Site, w *pwWrap) (string, error) {
+		if len(w.cbNames) == 0 {
+			return "", fmt.Errorf("%s: the callback has no parameter", s.Func)
+		}
+		ip := w.cbNames[len(w.cbNames)-1]
+		ie := w.read
+		if write {
+			ie = w.write
+		}
+		s2 := *s
+		s2.Params = []Param{{"i", "Int"}}
+		s2.Vars = map[string]string{}
+		if ip != "_" {
+			s2.Vars[ip] = "i"
+		}
+		env := &trEnv{c: c, s: &s2, locals: map[string]string{}, consts: map[string]string{}}
+		t, ty, err := env.tr(ie.Index)
+		if err != nil {
+			return "", err
+		}
+		if ty == "Bool" {
+			return "", fmt.Errorf("index %s is not numeric", c.Pretty(ie.Index))
+		}
+		return fmt.Sprintf("/-- index expression of `%s` in the callback of `%s`, as a function of the callback's own index parameter `%s` -/\ndef %s (i : Int) : Int := %s\n",
+			c.Pretty(ie), s.Func, ip, s.Name, t), nil
+	})
+}
+
+func init() {
+	const pkg = "parallel"
+	const mod = "ParDoFacts"
+	str := func(fn, name, doc string, f func(c *Ctx, w *pwWrap) (string, error)) Site {
+		return pwCustom(mod, pkg, fn, name, func(c *Ctx, s *Site, w *pwWrap) (string, error) {
+			v, err := f(c, w)
+			if err != nil {
+				return "", err
+			}
+			return fmt.Sprintf("/-- %s (`%s`) -/\ndef %s : String := %s\n", doc, s.Func, s.Name, leanString(v)), nil
+		})
+	}
+	strs := func(fn, name, doc string, f func(c *Ctx, w *pwWrap) ([]string, error)) Site {
+		return pwCustom(mod, pkg, fn, name, func(c *Ctx, s *Site, w *pwWrap) (string, error) {
+			v, err := f(c, w)
+			if err != nil {
+				return "", err
+			}
+			return fmt.Sprintf("/-- %s (`%s`) -/\ndef %s : List String := %s\n", doc, s.Func, s.Name, pwStrings(v)), nil
+		})
+	}
+	// where a context expression comes from: the callback's own first parameter, the wrapper's own
+	// context parameter (not shadowed by the callback's), anything else
+	ctxSource := func(c *Ctx, w *pwWrap, e ast.Expr, insideCb bool) string {
+		id, ok := e.(*ast.Ident)
+		if !ok {
+			return "other"
+		}
+		if insideCb {
+			for i, n := range w.cbNames {
+				if n == id.Name && n != "_" {
+					if i == 0 {
+						return "closureParam"
+					}
+					return "other"
+				}
+			}
+		}
+		if p := pwCtxParam(w.fd); p != "" && p == id.Name {
+			return "callerCtx"
+		}
+		return "other"
+	}
+	for _, fp := range [][2]string{{"Map", "map"}, {"MapContext", "mc"}} {
+		fn, p := fp[0], fp[1]
+		ctxMode := fn == "MapContext"
+		lenVars := map[string]string{"len(in)": "lenIn"}
+		lenPs := []Param{{"lenIn", "Int"}}
+		register(
+			// out := make([]U, <len>)
+			Site{Module: mod, Pkg: pkg, Func: fn, Name: p + "AllocLen", Kind: Expr, Sel: "assign[out][0]/call[make][0].arg[1]", Params: lenPs, Vars: lenVars},
+			str(fn, p+"Callee", "the function the callback is handed to", func(c *Ctx, w *pwWrap) (string, error) {
+				return c.Text(w.call.Fun), nil
+			}),
+			strs(fn, p+"CallArgs", "the arguments of that call, the callback as `<cb>`", func(c *Ctx, w *pwWrap) ([]string, error) {
+				var out []string
+				for i, a := range w.call.Args {
+					if i == w.litArg {
+						out = append(out, "<cb>")
+					} else {
+						out = append(out, c.Text(a))
+					}
+				}
+				return out, nil
+			}),
+			strs(fn, p+"CbParams", "the callback's own parameter binders", func(c *Ctx, w *pwWrap) ([]string, error) {
+				return w.cbNames, nil
+			}),
+			pwIdx(mod, pkg, fn, p+"WriteIdx", true),
+			pwIdx(mod, pkg, fn, p+"ReadIdx", false),
+			strs(fn, p+"CbShape", "the callback's statements; `#w` / `#r` stand for the index expressions of `out[…]` / `in[…]`, `#c` for the context handed to f", func(c *Ctx, w *pwWrap) ([]string, error) {
+				var out []string
+				for _, st := range w.lit.Body.List {
+					t := c.Text(st)
+					t = strings.Replace(t, c.Text(w.write), "out[#w]", 1)
+					t = strings.Replace(t, c.Text(w.read), "in[#r]", 1)
+					if ctxMode && len(w.fcall.Args) > 0 {
+						t = strings.Replace(t, "f("+c.Text(w.fcall.Args[0])+",", "f(#c,", 1)
+					}
+					out = append(out, t)
+				}
+				return out, nil
+			}),
+			strs(fn, p+"Stmts", "the wrapper's statements, the callback as `<cb>`", func(c *Ctx, w *pwWrap) ([]string, error) {
+				lit := c.Text(w.lit)
+				var out []string
+				for _, st := range c.stmtList(w.fd.Body) {
+					out = append(out, strings.Replace(stripSpace(st), lit, "<cb>", 1))
+				}
+				return out, nil
+			}),
+		)
+		register(
+			strs(fn, p+"RetOk", "result expressions of the wrapper's final `return`", func(c *Ctx, w *pwWrap) ([]string, error) {
+				l := w.fd.Body.List
+				if len(l) == 0 {
+					return nil, fmt.Errorf("empty body")
+				}
+				rs, ok := l[len(l)-1].(*ast.ReturnStmt)
+				if !ok {
+					return nil, fmt.Errorf("the last statement is not a return")
+				}
+				var out []string
+				for _, r := range rs.Results {
+					out = append(out, c.Text(r))
+				}
+				return out, nil
+			}),
+		)
+		if ctxMode {
+			register(
+				strs(fn, p+"RetErr", "result expressions of the `return` inside `if err != nil { … }`", func(c *Ctx, w *pwWrap) ([]string, error) {
+					n, err := c.SelectPath(w.fd, "if[0].body/return[0]")
+					if err != nil {
+						return nil, err
+					}
+					var out []string
+					for _, r := range n.(*ast.ReturnStmt).Results {
+						out = append(out, c.Text(r))
+					}
+					return out, nil
+				}),
+				str(fn, p+"CalleeCtx", "where the context passed to the callee comes from", func(c *Ctx, w *pwWrap) (string, error) {
+					if len(w.call.Args) == 0 {
+						return "other", nil
+					}
+					return ctxSource(c, w, w.call.Args[0], false), nil
+				}),
+				str(fn, p+"CtxSource", "where the context handed to f comes from: the callback's own first parameter (`closureParam`), the wrapper's context parameter (`callerCtx`), anything else (`other`)", func(c *Ctx, w *pwWrap) (string, error) {
+					if len(w.fcall.Args) == 0 {
+						return "other", nil
+					}
+					return ctxSource(c, w, w.fcall.Args[0], true), nil
+				}),
+			)
+		}
 	}
 }
